@@ -12,7 +12,8 @@ formatter, a condition or a case body changes what the driver executes and what 
 Text is `List Char`, one char per byte.  Abstract / trusted: `encoding/base64` (a `Codec` with the
 law `dec (enc b) = some b`; the driver instantiates a concrete implementation), `bufio.Scanner`
 (`scanLines` + the token limit), `strconv` (`parseUintB`/`parseIntB`), `path/filepath`
-(`pathClean`, `pathDir`, `pathBase`, `pathJoin2`), `strings.TrimSpace` (`trimSpace`).
+(`pathClean`, `pathDir`, `pathBase`, `pathJoin2`), `strings.TrimRight` (`trimEOL`; `strings.TrimSpace` =
+`trimSpace` for the pinned readers).
 -/
 import Apko.Model.Text
 import Apko.Generated.Formats
@@ -495,12 +496,15 @@ def trimSuffixSlash (t : Text) : Text :=
   | '/' :: r => r.reverse
   | _ => t
 
+/-- the pinned tree before the repair of F16d: `perm := f.Mode & 0777`, kept for the witness -/
+def pinnedPerm (mode : Int) : Int := mode.emod 512
+
 def permLine (tag : Char) (f : FileRec) : Text :=
-  tag :: ':' :: (intToDec f.uid ++ ':' :: (intToDec f.gid ++ ':' :: oct4 (f.mode.emod 512).toNat))
+  tag :: ':' :: (intToDec f.uid ++ ':' :: (intToDec f.gid ++ ':' :: oct4 (f.mode.emod 4096).toNat))
 
 /-- the body of AddInstalledPackage's file loop for one header -/
 def fileLines (c : Codec) (f : FileRec) : Res (List Text) :=
-  let perm := f.mode.emod 512
+  let perm := f.mode.emod 4096
   if f.isDir then
     .ok (('F' :: ':' :: trimSuffixSlash f.name) ::
       (if perm ≠ 0o755 ∨ f.uid ≠ 0 ∨ f.gid ≠ 0 then [permLine 'M' f] else []))
@@ -705,20 +709,29 @@ def trimSpace (t : Text) : Text :=
   let l := trimLeft t.length t
   (trimRightRev l.length l.reverse).reverse
 
+/-- `strings.TrimRight(line, "\r\n")`: only line terminators at the end go (after the repair of F16f) -/
+def trimEOL (t : Text) : Text := (t.reverse.dropWhile fun c => c == '\r' || c == '\n').reverse
+
 def toU32 (i : Int) : Nat := (i.emod 4294967296).toNat
 
 def renderUser (u : User) : Text :=
   u.name ++ ':' :: (u.password ++ ':' :: (natToDec u.uid ++ ':' :: (natToDec u.gid ++ ':' ::
     (u.info ++ ':' :: (u.home ++ ':' :: (u.shell ++ ['\n']))))))
 
-/-- `UserEntry.Parse` -/
-def parseUser (line : Text) : Option User :=
-  match splitOnChar ':' (trimSpace line) with
+/-- `UserEntry.Parse`, generic in what is trimmed off the line first -/
+def parseUserWith (trim : Text → Text) (line : Text) : Option User :=
+  match splitOnChar ':' (trim line) with
   | [n, pw, uid, gid, info, home, sh] =>
     match parseIntB 10 uid, parseIntB 10 gid with
     | some u, some g => some ⟨n, pw, toU32 u, toU32 g, info, home, sh⟩
     | _, _ => none
   | _ => none
+
+/-- `UserEntry.Parse` -/
+def parseUser (line : Text) : Option User := parseUserWith trimEOL line
+
+/-- the pinned tree before the repair of F16f: `line = strings.TrimSpace(line)`, kept for the witnesses -/
+def pinnedParseUser (line : Text) : Option User := parseUserWith trimSpace line
 
 def renderGroup (g : Group) : Text :=
   g.name ++ ':' :: (g.password ++ ':' :: (natToDec g.gid ++ ':' :: (joinWith [','] g.members ++ ['\n'])))
@@ -727,9 +740,9 @@ def renderGroup (g : Group) : Text :=
 strings.Split(parts[3], ",") }` (after the repair of F16e) -/
 def splitMembers (mem : Text) : List Text := if mem = [] then [] else splitOnChar ',' mem
 
-/-- `GroupEntry.Parse`, generic in the reading of the member field -/
-def parseGroupWith (members : Text → List Text) (line : Text) : Option Group :=
-  match splitOnChar ':' (trimSpace line) with
+/-- `GroupEntry.Parse`, generic in what is trimmed off the line and in the reading of the member field -/
+def parseGroupWith (trim : Text → Text) (members : Text → List Text) (line : Text) : Option Group :=
+  match splitOnChar ':' (trim line) with
   | [n, pw, gid, mem] =>
     match parseIntB 10 gid with
     | some g => some ⟨n, pw, toU32 g, members mem⟩
@@ -737,11 +750,13 @@ def parseGroupWith (members : Text → List Text) (line : Text) : Option Group :
   | _ => none
 
 /-- `GroupEntry.Parse` -/
-def parseGroup (line : Text) : Option Group := parseGroupWith splitMembers line
+def parseGroup (line : Text) : Option Group := parseGroupWith trimEOL splitMembers line
 
-/-- the expression of the pinned tree before the repair of F16e (`ge.Members = strings.Split(parts[3], ",")`
-unconditionally: an empty field is one empty member), kept for the witnesses -/
-def pinnedParseGroup (line : Text) : Option Group := parseGroupWith (splitOnChar ',') line
+/-- the pinned tree before the repairs of F16e (`ge.Members = strings.Split(parts[3], ",")` unconditionally:
+an empty field is one empty member) and F16f (`strings.TrimSpace`), kept for the witnesses -/
+def pinnedParseGroup (line : Text) : Option Group := parseGroupWith trimSpace (splitOnChar ',') line
+/-- F16f alone: the pinned trimming with today's member field -/
+def pinnedTrimParseGroup (line : Text) : Option Group := parseGroupWith trimSpace splitMembers line
 
 def mapAllOpt {α β : Type} (f : α → Option β) : List α → Option (List β)
   | [] => some []
@@ -759,6 +774,8 @@ def loadWith {α : Type} (parse : Text → Option α) (t : Text) : Option (List 
 def loadUsers : Text → Option (List User) := loadWith parseUser
 def loadGroups : Text → Option (List Group) := loadWith parseGroup
 def pinnedLoadGroups : Text → Option (List Group) := loadWith pinnedParseGroup
+def pinnedLoadUsers : Text → Option (List User) := loadWith pinnedParseUser
+def pinnedTrimLoadGroups : Text → Option (List Group) := loadWith pinnedTrimParseGroup
 def writeUsers (us : List User) : Text := us.flatMap renderUser
 def writeGroups (gs : List Group) : Text := gs.flatMap renderGroup
 
